@@ -34,6 +34,10 @@ def build(r, name, generics=None):
     names = [model.snakify(v.ident) for v in spec.variants]
     if len(set(names)) != len(names):
         return None
+    gen.add_noise(r, spec, skip=("serialize",))
+    for v in spec.variants:
+        if r.random() < 0.15 and not v.serialize:
+            v.to_string = "noise name %s" % v.ident      # method names come from the identifier, never from the spelling
     return spec
 
 
